@@ -1,4 +1,5 @@
 import IdModel.Jwk.Model
+import IdModel.Jwk.ThumbLemmas
 /-!
 # C18 — JWK public projection, thumbprint and key-type coherence never leak keys
 
@@ -265,5 +266,62 @@ example : (toPublic exKey).map (fun p => (p.members, p.keyOps)) =
 example : ((toPublic exKey).bind toPublic) = toPublic exKey := by decide
 example : fromJson (some .rsa) [("crv", "Ed25519"), ("x", "abc")] = none := by decide
 example : (fromJson (some .okp) [("crv", "Ed25519"), ("x", "abc")]).map (·.family) = some .okp := by decide
+
+
+/-! ## the thumbprint TEXT (`thumbprint_hash_input` as the string it is) -/
+
+section ThumbprintText
+open Thumb
+
+theorem mapInj {α β : Type} (f : α → β) (hf : Function.Injective f) : ∀ (l1 l2 : List α), l1.map f = l2.map f → l1 = l2
+  | [], [], _ => rfl
+  | [], _ :: _, h => by simp at h
+  | _ :: _, [], h => by simp at h
+  | a :: t, b :: u, h => by
+    simp only [List.map_cons, List.cons.injEq] at h
+    rw [hf h.1, mapInj f hf t u h.2]
+
+theorem thumbprintInput_names (j : Jwk) :
+    (thumbprintInput j).map (·.1) = (thumbprintMembers.lookup j.family.tag).getD [] := by
+  unfold thumbprintInput
+  rw [List.map_map]
+  conv => rhs; rw [← List.map_id ((thumbprintMembers.lookup j.family.tag).getD [])]
+  apply List.map_congr_left
+  intro n _
+  simp only [Function.comp]
+  split <;> rfl
+
+/-- **the hash input TEXT determines the key**: two keys of one parameter family whose thumbprint members hold no quote
+character (base64url text and the registered `kty` / `crv` names never do) and whose hash-input texts are equal have the same
+declared type and the same required public members — so `kid = thumbprint` names at most one public key.  (The values are
+pasted without JSON escaping: with a quote inside a value the text is ambiguous, see the `example` in `Jwk/ThumbLemmas`.) -/
+theorem thumbprint_text_injective (j1 j2 : Jwk) (hf : j1.family = j2.family)
+    (h1 : ∀ m ∈ thumbprintInput j1, Thumb.q ∉ m.2.toList) (h2 : ∀ m ∈ thumbprintInput j2, Thumb.q ∉ m.2.toList)
+    (h : thumbprintText j1 = thumbprintText j2) : thumbprintInput j1 = thumbprintInput j2 := by
+  unfold thumbprintText at h
+  have hn : ((thumbprintInput j1).map fun m => (m.1.toList, m.2.toList)).map (·.1) =
+      ((thumbprintInput j2).map fun m => (m.1.toList, m.2.toList)).map (·.1) := by
+    rw [List.map_map, List.map_map]
+    have e1 := thumbprintInput_names j1
+    have e2 := thumbprintInput_names j2
+    rw [hf] at e1
+    have : (thumbprintInput j1).map (·.1) = (thumbprintInput j2).map (·.1) := e1.trans e2.symm
+    have := congrArg (List.map String.toList) this
+    rw [List.map_map, List.map_map] at this
+    exact this
+  have key := text_inj _ _ hn
+    (by intro p hp; obtain ⟨m, hm, rfl⟩ := List.mem_map.1 hp; exact h1 m hm)
+    (by intro p hp; obtain ⟨m, hm, rfl⟩ := List.mem_map.1 hp; exact h2 m hm) h
+  -- back from characters to strings
+  have inj : Function.Injective (fun m : String × String => (m.1.toList, m.2.toList)) := by
+    intro a b hab
+    simp only [Prod.mk.injEq] at hab
+    exact Prod.ext (String.toList_inj.1 hab.1) (String.toList_inj.1 hab.2)
+  exact mapInj _ inj _ _ key
+
+example : thumbprintText (fromParams .okp [("crv", "Ed25519"), ("x", "AQAB")]) =
+    "{\"crv\":\"Ed25519\",\"kty\":\"OKP\",\"x\":\"AQAB\"}".toList := by decide
+
+end ThumbprintText
 
 end IdModel.Props.C18
